@@ -279,6 +279,13 @@ def _(i0, i1, s0, s1, b0, k0, k1, k2):
     return UnionModels(item=item, items=[Textual(value="x"), Numeric(value=i0)][:k1])
 
 
+@spec("renamed", RenamedUnion, K=(3, 3, 1), valid=lambda i0, i1, s0, s1, b0, k0, k1, k2: _xml(s0), uses="i0 s0 k0 k1",
+      note="union of models whose python field names differ from their element / attribute names")
+def _(i0, i1, s0, s1, b0, k0, k1, k2):
+    item = [None, RenA(full_name=s0, kind="a"), RenB(item_count=i0)][k0]
+    return RenamedUnion(item=item, items=[RenB(item_count=i0, kind="b"), RenA(full_name="x")][:k1])
+
+
 @spec("nsattrparent", NsAttrParent, K=(3, 3, 1), valid=lambda i0, i1, s0, s1, b0, k0, k1, k2: _xml(s0), uses="i0 s0 k0 k1")
 def _(i0, i1, s0, s1, b0, k0, k1, k2):
     return NsAttrParent(child=[None, NsAttr(a=s0, x=None), NsAttr(a="v", x=i0)][k0], kids=[NsAttr(a=s0), NsAttr(a=None, x=1)][:k1])
